@@ -14,10 +14,12 @@ import (
 	"context"
 	"fmt"
 	"math/rand"
+	"runtime/debug"
 	"sort"
 	"strconv"
 	"strings"
 
+	"github.com/go-logr/logr"
 	"github.com/openkruise/rollouts/api/v1beta1"
 	batchcontext "github.com/openkruise/rollouts/pkg/controller/batchrelease/context"
 	"github.com/openkruise/rollouts/pkg/controller/batchrelease/control"
@@ -133,8 +135,7 @@ func revHash(rev string) string {
 
 func concretePod(i int, p pod) *corev1.Pod {
 	lbl := map[string]string{"app": "demo"}
-	o := &corev1.Pod{ObjectMeta: metav1.ObjectMeta{Namespace: ns, Name: fmt.Sprintf("p-%d", i)},
-		Spec: corev1.PodSpec{Containers: []corev1.Container{{Name: "main", Image: "demo"}}}}
+	o := &corev1.Pod{ObjectMeta: metav1.ObjectMeta{Namespace: ns, Name: fmt.Sprintf("p-%d", i)}}
 	switch p.Own {
 	case "rs":
 		name, un := "rs-new", unrelatedN
@@ -174,32 +175,50 @@ func concretePod(i int, p pod) *corev1.Pod {
 	return o
 }
 
-func buildStore(pods []pod) (*sim.Store, error) {
-	s := sim.NewStore(sim.GlobalScheme())
-	needRS := false
-	for i, p := range pods {
-		if p.Own == "rs" {
-			needRS = true
+// storeCache builds the simulated API server content of a pod set. Consecutive cases share long pod
+// prefixes (multisets are enumerated in lexicographic order), so the store state after every prefix is
+// kept as an immutable snapshot and only the differing suffix is created again. The resulting state is
+// exactly the one a build from scratch produces (same creation order: ReplicaSets, then p-0, p-1, ...).
+type storeCache struct {
+	s     *sim.Store
+	pods  []pod
+	snaps []*sim.Snapshot // snaps[j]: ReplicaSets and pods[0..j-1] created
+}
+
+func (c *storeCache) build(pods []pod) (*sim.Store, error) {
+	if c.s == nil {
+		c.s = sim.NewStore(sim.GlobalScheme())
+		for _, rs := range []*appsv1.ReplicaSet{rsNew, rsOld} {
+			if err := c.s.Put(rs.DeepCopy()); err != nil {
+				return nil, err
+			}
 		}
-		o := concretePod(i, p)
-		if err := s.Put(o); err != nil {
+		c.snaps = []*sim.Snapshot{c.s.Snapshot()}
+	}
+	j := 0
+	for j < len(pods) && j < len(c.pods) && pods[j] == c.pods[j] {
+		j++
+	}
+	c.s.Restore(c.snaps[j])
+	c.snaps, c.pods = c.snaps[:j+1], c.pods[:j]
+	for ; j < len(pods); j++ {
+		o := concretePod(j, pods[j])
+		if err := c.s.Put(o); err != nil {
 			return nil, err
 		}
-		if p.Term {
-			if err := s.Delete(context.TODO(), o); err != nil {
+		if pods[j].Term {
+			if err := c.s.Delete(context.TODO(), o); err != nil {
 				return nil, err
 			}
 		}
+		c.pods = append(c.pods, pods[j])
+		c.snaps = append(c.snaps, c.s.Snapshot())
 	}
-	if needRS {
-		for _, rs := range []*appsv1.ReplicaSet{rsNew, rsOld} {
-			if err := s.Put(rs.DeepCopy()); err != nil {
-				return nil, err
-			}
-		}
-	}
-	return s, nil
+	c.s.BeginAction("batchrelease")
+	return c.s, nil
 }
+
+var mainStore, cleanStore storeCache
 
 func listPods(s *sim.Store) ([]*corev1.Pod, error) {
 	pl := &corev1.PodList{}
@@ -402,11 +421,11 @@ func alphabetFilter(n int) []pod {
 
 // full alphabet (thorough): revision/owner/hash kinds x terminating x label values x (no-need-update)
 func alphabetFull(n int, filter bool) []pod {
-	kinds := [][3]string{{"new", "cs", "crh"}, {"old", "cs", "crh"}, {"new", "cs", "pth"}, {"old", "cs", "pth"}, {"unknown", "cs", "none"}}
+	kinds := [][3]string{{"new", "cs", "crh"}, {"old", "cs", "crh"}, {"new", "cs", "pth"}, {"unknown", "cs", "none"}}
 	if !filter {
-		kinds = append(kinds, [3]string{"new", "rs", "none"}, [3]string{"old", "rs", "none"}, [3]string{"new", "rs", "crh"}, [3]string{"old", "rs", "crh"})
+		kinds = append(kinds, [3]string{"new", "rs", "none"}, [3]string{"old", "rs", "none"}, [3]string{"new", "rs", "crh"})
 	}
-	labels := [][2]string{lab("none", ""), lab("none", "1"), lab("none", "0"), lab("cur", ""), lab("cur", "0"), lab("cur", strconv.Itoa(n+1)), lab("cur", "-1"), lab("cur", "abc"),
+	labels := [][2]string{lab("none", ""), lab("none", "1"), lab("cur", ""), lab("cur", "0"), lab("cur", strconv.Itoa(n+1)), lab("cur", "-1"), lab("cur", "abc"),
 		lab("cur", "99999999999999999999"), lab("cur", "1.0"),
 		lab("foreign", ""), lab("foreign", "1"), lab("foreign", "0"), lab("foreign", "abc"), lab("foreign", strconv.Itoa(n+1))}
 	for i := 1; i <= n; i++ {
@@ -464,7 +483,7 @@ func configsQuick() []config {
 	return []config{
 		{[]step{I(2)}, 5}, {[]step{P(50)}, 5}, {[]step{P(100)}, 2},
 		{[]step{I(1), I(3)}, 5}, {[]step{I(1), I(3)}, 2}, {[]step{P(20), P(100)}, 5}, {[]step{I(2), I(1)}, 5}, {[]step{P(50), P(50)}, 3},
-		{[]step{I(1), I(2), I(4)}, 5}, {[]step{P(10), P(50), P(100)}, 5}, {[]step{I(1), P(50), P(100)}, 4}, {[]step{I(1), I(2), I(4)}, 3},
+		{[]step{I(1), I(2), I(4)}, 5}, {[]step{P(10), P(50), P(100)}, 5}, {[]step{I(1), P(50), P(100)}, 4},
 	}
 }
 
@@ -472,15 +491,15 @@ func configsThoroughExtra() []config {
 	return []config{
 		{[]step{I(0)}, 3}, {[]step{P(1)}, 1}, {[]step{I(7)}, 3},
 		{[]step{P(50), P(100)}, 0}, {[]step{P(34), P(67)}, 3}, {[]step{I(3), I(3)}, 4}, {[]step{P(100), P(0)}, 2},
-		{[]step{I(1), I(1), I(2)}, 2}, {[]step{P(33), P(66), P(100)}, 3}, {[]step{I(3), I(1), I(2)}, 6}, {[]step{P(1), P(2), P(3)}, 10},
+		{[]step{I(1), I(2), I(4)}, 3}, {[]step{I(1), I(1), I(2)}, 2}, {[]step{P(33), P(66), P(100)}, 3}, {[]step{I(3), I(1), I(2)}, 6}, {[]step{P(1), P(2), P(3)}, 10},
 	}
 }
 
 type runner struct {
-	w  *fnlib.Writer
+	w *fnlib.Writer
 }
 
-func (r *runner) run(cfg config, cur int, filter string, pods []pod) {
+func (r *runner) run(cfg config, cur int, filter string, pods []pod) bool {
 	n := len(cfg.plan)
 	nnu := 0
 	for _, p := range pods {
@@ -489,7 +508,7 @@ func (r *runner) run(cfg config, cur int, filter string, pods []pod) {
 		}
 	}
 	if filter == "unordered" && nnu > cfg.R {
-		return
+		return false // more no-need-update pods than replicas: not a context the controller builds
 	}
 	br := &v1beta1.BatchRelease{ObjectMeta: metav1.ObjectMeta{Namespace: ns, Name: "br"},
 		Spec: v1beta1.BatchReleaseSpec{ReleasePlan: v1beta1.ReleasePlan{Batches: batches(cfg.plan)}}}
@@ -498,7 +517,7 @@ func (r *runner) run(cfg config, cur int, filter string, pods []pod) {
 	if filter == "unordered" && nnu > 0 { // cloneset control.go CalculateBatchContext, rollback scene
 		desired = nnu + control.CalculateBatchReplicas(br, cfg.R-nnu, cur)
 	}
-	ci := &caseIn{plan: cfg.plan, R: cfg.R, cur: cur, filter: filter, planned: planned, desired: desired, nnu: nnu, pods: append([]pod(nil), pods...)}
+	ci := &caseIn{plan: cfg.plan, R: cfg.R, cur: cur, filter: filter, planned: planned, desired: desired, nnu: nnu, pods: append([]pod{}, pods...)}
 	kinds := map[string]bool{}
 	for _, p := range pods {
 		if eligible(p) && p.Rid == "cur" && (p.Bk == "zero" || p.Bk == "neg" || p.Bk == "high") {
@@ -513,7 +532,7 @@ func (r *runner) run(cfg config, cur int, filter string, pods []pod) {
 	in := map[string]interface{}{"n": n, "plan": ci.plan, "R": ci.R, "cur": cur, "filter": filter, "planned": planned, "desired": desired,
 		"nnu": nnu, "npods": len(pods), "pods": ci.pods, "oorAny": len(ks) > 0, "oor": strings.Join(ks, "+")}
 	r.w.Run(in, func() (interface{}, error) {
-		s, err := buildStore(ci.pods)
+		s, err := mainStore.build(ci.pods)
 		if err != nil {
 			panic("harness: " + err.Error())
 		}
@@ -532,7 +551,7 @@ func (r *runner) run(cfg config, cur int, filter string, pods []pod) {
 		if cp := cleaned(ci.pods); !samePods(cp, ci.pods) {
 			cc := *ci
 			cc.pods = cp
-			sc, err := buildStore(cp)
+			sc, err := cleanStore.build(cp)
 			if err != nil {
 				panic("harness: " + err.Error())
 			}
@@ -544,6 +563,7 @@ func (r *runner) run(cfg config, cur int, filter string, pods []pod) {
 		return map[string]interface{}{"pods1": pods1, "pods2": pods2, "err2": err2, "panic2": panic2,
 			"clean1": clean1, "errC": errC, "panicC": panicC}, err1
 	})
+	return true
 }
 
 func pick(a []pod, idx []int) []pod {
@@ -563,6 +583,43 @@ func hasNnu(pods []pod) bool {
 	return false
 }
 
+// isOor: the shape on which the unchanged patcher indexes its per-batch slice out of range — a live
+// new-revision pod of the current release whose batch-id label is numeric but outside 1..n.
+func isOor(p pod) bool {
+	return eligible(p) && p.Rid == "cur" && (p.Bk == "zero" || p.Bk == "neg" || p.Bk == "high")
+}
+
+func split(a []pod) (plain, oor []pod) {
+	for _, p := range a {
+		if isOor(p) {
+			oor = append(oor, p)
+		} else {
+			plain = append(plain, p)
+		}
+	}
+	return
+}
+
+func anyOor(pods []pod) bool {
+	for _, p := range pods {
+		if isOor(p) {
+			return true
+		}
+	}
+	return false
+}
+
+// configurations on which the out-of-range shape is combined with other pods (one per plan length)
+func oorConfig(cfg config) bool {
+	switch len(cfg.plan) {
+	case 1:
+		return cfg.R == 5 && cfg.plan[0] == I(2)
+	case 2:
+		return cfg.R == 5 && cfg.plan[0] == I(1) && cfg.plan[1] == I(3)
+	}
+	return cfg.R == 5 && cfg.plan[0] == P(10) && cfg.plan[1] == P(50) && cfg.plan[2] == P(100)
+}
+
 func main() {
 	fl := fnlib.ParseFlags()
 	w, err := fnlib.NewWriter(fl)
@@ -570,6 +627,8 @@ func main() {
 		panic(err)
 	}
 	sim.InitProcess()
+	klog.SetLogger(logr.Discard()) // the patcher logs every pod; formatting dominates otherwise
+	debug.SetGCPercent(400)
 	initHashes()
 	r := &runner{w: w}
 	thorough := fl.Tier == "thorough"
@@ -580,20 +639,79 @@ func main() {
 	sort.SliceStable(cfgs, func(i, j int) bool { return len(cfgs[i].plan) < len(cfgs[j].plan) })
 	maxPods := 3
 	counts := map[string]int{}
-	// part A: exhaustive multisets over the restricted alphabet, smallest pod sets first
+	rng := rand.New(rand.NewSource(fl.Seed))
+
+	// part O (first, smallest first): pod sets that contain the out-of-range shape. While the patcher
+	// crashes on it every such case is a violation, so the shape is combined with other pods on a bounded
+	// sub-domain only: alone on every configuration; with one / two more pods of the restricted alphabet
+	// on one configuration per plan length (two more: n = 2 only); thorough: with one more pod of the full
+	// alphabet (n = 2) and in seeded 3-4 pod samples. Parts A-C never contain the shape.
+	for k := 1; k <= maxPods; k++ {
+		for _, cfg := range cfgs {
+			n := len(cfg.plan)
+			for cur := 0; cur < n; cur++ {
+				if !(k == 1 || (oorConfig(cfg) && cur == n-1 && (k == 2 || n == 2))) {
+					continue
+				}
+				aq := alphabetQuick(n)
+				multisets(len(aq), k, func(idx []int) {
+					if ps := pick(aq, idx); anyOor(ps) && r.run(cfg, cur, "none", ps) {
+						counts["O.none"]++
+					}
+				})
+				if k > 2 {
+					continue
+				}
+				af := alphabetFilter(n)
+				multisets(len(af), k, func(idx []int) {
+					if ps := pick(af, idx); anyOor(ps) && (hasNnu(ps) || k == 1) && r.run(cfg, cur, "unordered", ps) {
+						counts["O.filter"]++
+					}
+				})
+			}
+		}
+	}
+	if thorough {
+		cfg, cur := config{[]step{I(1), I(3)}, 5}, 1
+		for _, filter := range []string{"none", "unordered"} {
+			a := alphabetFull(2, filter == "unordered")
+			multisets(len(a), 2, func(idx []int) {
+				if ps := pick(a, idx); anyOor(ps) && r.run(cfg, cur, filter, ps) {
+					counts["O.full2"]++
+				}
+			})
+		}
+		for i := 0; i < 1500; i++ {
+			cfg := cfgs[rng.Intn(len(cfgs))]
+			n := len(cfg.plan)
+			a := alphabetFullCached(n, false)
+			_, oor := split(a)
+			ps := []pod{oor[rng.Intn(len(oor))]}
+			for k := 2 + rng.Intn(2); k > 0; k-- {
+				ps = append(ps, a[rng.Intn(len(a))])
+			}
+			sort.Slice(ps, func(i, j int) bool { return ps[i].key() < ps[j].key() })
+			if r.run(cfg, rng.Intn(n), "none", ps) {
+				counts["O.sampled"]++
+			}
+		}
+	}
+
+	// part A: every multiset of <= 3 pods over the restricted alphabet, smallest pod sets first
 	for k := 0; k <= maxPods; k++ {
 		for _, cfg := range cfgs {
 			n := len(cfg.plan)
-			aq, af := alphabetQuick(n), alphabetFilter(n)
+			aq, _ := split(alphabetQuick(n))
+			af, _ := split(alphabetFilter(n))
 			for cur := 0; cur < n; cur++ {
 				multisets(len(aq), k, func(idx []int) {
-					r.run(cfg, cur, "none", pick(aq, idx))
-					counts["A.none"]++
+					if r.run(cfg, cur, "none", pick(aq, idx)) {
+						counts["A.none"]++
+					}
 				})
 				multisets(len(af), k, func(idx []int) {
 					ps := pick(af, idx)
-					if hasNnu(ps) || k == 0 {
-						r.run(cfg, cur, "unordered", ps)
+					if (hasNnu(ps) || k == 0) && r.run(cfg, cur, "unordered", ps) {
 						counts["A.filter"]++
 					}
 				})
@@ -602,16 +720,28 @@ func main() {
 	}
 	exhaustive := true
 	if thorough {
-		// part B: every multiset of <= 2 pods over the full alphabet
+		// part B: every multiset of <= 2 pods over the full alphabet, on one configuration per plan length
+		partB := []struct {
+			cfg  config
+			curs []int
+		}{
+			{config{[]step{I(2)}, 5}, []int{0}},
+			{config{[]step{I(1), I(3)}, 5}, []int{1}},
+			{config{[]step{P(10), P(50), P(100)}, 5}, []int{1, 2}},
+		}
 		for k := 1; k <= 2; k++ {
-			for _, cfg := range cfgs {
-				n := len(cfg.plan)
-				for cur := 0; cur < n; cur++ {
+			for _, pb := range partB {
+				n := len(pb.cfg.plan)
+				for ci, cur := range pb.curs {
 					for _, filter := range []string{"none", "unordered"} {
-						a := alphabetFull(n, filter == "unordered")
+						if filter == "unordered" && ci > 0 {
+							continue
+						}
+						a, _ := split(alphabetFullCached(n, filter == "unordered"))
 						multisets(len(a), k, func(idx []int) {
-							r.run(cfg, cur, filter, pick(a, idx))
-							counts["B."+filter]++
+							if r.run(pb.cfg, cur, filter, pick(a, idx)) {
+								counts["B."+filter]++
+							}
 						})
 					}
 				}
@@ -619,8 +749,7 @@ func main() {
 		}
 		// part C: seeded samples of 3- and 4-pod multisets over the full alphabet
 		exhaustive = false
-		rng := rand.New(rand.NewSource(fl.Seed))
-		for i := 0; i < 260000; i++ {
+		for i := 0; i < 120000; i++ {
 			cfg := cfgs[rng.Intn(len(cfgs))]
 			n := len(cfg.plan)
 			cur := rng.Intn(n)
@@ -628,30 +757,34 @@ func main() {
 			if rng.Intn(4) == 0 {
 				filter = "unordered"
 			}
-			a := alphabetFullCached(n, filter == "unordered")
+			a, _ := split(alphabetFullCached(n, filter == "unordered"))
+			var el []int
+			for j, p := range a {
+				if eligible(p) && p.Own == "cs" && p.Hash == "crh" {
+					el = append(el, j)
+				}
+			}
 			k := 3 + rng.Intn(2)
 			idx := make([]int, k)
 			for j := range idx {
-				// half of the pods are drawn from the live new-revision CloneSet pods so that budgets are contended
+				// half of the pods are live new-revision CloneSet pods so that the batch budgets are contended
 				if rng.Intn(2) == 0 {
 					idx[j] = rng.Intn(len(a))
 				} else {
-					idx[j] = eligibleIdx(a, n, filter == "unordered")[rng.Intn(len(eligibleIdx(a, n, filter == "unordered")))]
+					idx[j] = el[rng.Intn(len(el))]
 				}
 			}
 			sort.Ints(idx)
-			r.run(cfg, cur, filter, pick(a, idx))
-			counts["C.sampled"]++
+			if r.run(cfg, cur, filter, pick(a, idx)) {
+				counts["C.sampled"]++
+			}
 		}
 	}
 	extra := map[string]interface{}{"parts": counts, "configs": len(cfgs), "max_pods_exhaustive": maxPods, "hash_new": hashNew, "hash_old": hashOld}
 	w.Close(exhaustive, extra)
 }
 
-var (
-	fullCache = map[string][]pod{}
-	eligCache = map[string][]int{}
-)
+var fullCache = map[string][]pod{}
 
 func alphabetFullCached(n int, filter bool) []pod {
 	k := fmt.Sprintf("%d/%v", n, filter)
@@ -661,19 +794,4 @@ func alphabetFullCached(n int, filter bool) []pod {
 	a := alphabetFull(n, filter)
 	fullCache[k] = a
 	return a
-}
-
-func eligibleIdx(a []pod, n int, filter bool) []int {
-	k := fmt.Sprintf("%d/%v", n, filter)
-	if e, ok := eligCache[k]; ok {
-		return e
-	}
-	var e []int
-	for i, p := range a {
-		if eligible(p) && p.Own == "cs" && p.Hash == "crh" {
-			e = append(e, i)
-		}
-	}
-	eligCache[k] = e
-	return e
 }
